@@ -33,6 +33,8 @@ for mp in sorted(glob.glob('/verif/seeded/*/meta.json')):
         continue
     if m.get('status') == 'obsolete':
         continue
+    if not only and m.get('revalidation', {}).get('repo_head') == head and 'still_a_valid_seed' in m.get('revalidation', {}):
+        continue        # already done at this HEAD (resume)
     tmp = tempfile.mkdtemp(prefix='verif_reseed_')
     repo = os.path.join(tmp, 'repo')
     try:
@@ -56,7 +58,8 @@ for mp in sorted(glob.glob('/verif/seeded/*/meta.json')):
         b = subprocess.run(['/verif/tools/baseline.py', repo], stdout=subprocess.PIPE, text=True)
         demo = subprocess.run(['/venv/bin/python', os.path.join(d, 'demo.py')], env=env, cwd=tmp, stdout=subprocess.PIPE,
                               stderr=subprocess.STDOUT, text=True, timeout=600)
-        subprocess.check_call(['git', '-C', repo, 'checkout', '-q', '--', '.'])
+        subprocess.check_call(['git', '-C', repo, 'reset', '-q', '--hard', 'HEAD'])
+        shutil.copy('/repo/src/mqtt/_version.py', os.path.join(repo, 'src/mqtt/_version.py'))
         demo0 = subprocess.run(['/venv/bin/python', os.path.join(d, 'demo.py')], env=env, cwd=tmp, stdout=subprocess.PIPE,
                                stderr=subprocess.STDOUT, text=True, timeout=600)
         subprocess.check_call(['git', '-C', repo, 'apply', patch])
